@@ -77,6 +77,9 @@ def _case(draw):
     ws = [draw(gen.fl(1.0, 8.0)) for _ in range(nt)]
     wd = [draw(gen.fl(0.0, 360.0)) for _ in range(nt)]
     mol = [draw(st.sampled_from([-1.0, 1.0])) * zmax * draw(gen.logfl(2.0, 1000.0)) for _ in range(nt)]
+    if draw(st.integers(0, 3)) == 0:
+        # one strongly stable step: an Obukhov length shorter than the tallest tower is high (z/L > 1 there)
+        mol[draw(st.integers(0, nt - 1))] = zmax * draw(gen.fl(0.45, 0.95))
     sweep = nt > 1 and draw(st.integers(0, 2)) == 0  # a direction sweep: only wind_dir changes from step to step
     if sweep:
         ws, mol = [ws[0]] * nt, [mol[0]] * nt
@@ -242,7 +245,8 @@ def check_case(case):
             out.nontrivial = False
             return out
         gb, cb, fb = b
-        if not (np.array_equal(aj["conc"], cb) and np.array_equal(aj["flx"], fb)):
+        # (a step that overflows in both routes - strongly stable, fine grid - is NaN in both: the same result)
+        if not (np.array_equal(aj["conc"], cb, equal_nan=True) and np.array_equal(aj["flx"], fb, equal_nan=True)):
             e = "shape" if np.shape(aj["flx"]) != np.shape(fb) else f"{np.abs(np.asarray(aj['flx']) - fb).max():.3e}"
             out.bad(f"run_bldfm_single(tower {ti}, step {step}) differs from the explicit pipeline (flux diff {e}; "
                     f"steps run so far in this process: {list(range(step + 1))})")
